@@ -36,6 +36,11 @@ CHECKS = {
         text="Every resolver invocation observed under generated argument plans (omitted / inline / variable / nested variable x valid / null / mutated) is checked for exact equality with the specification's coercion result and for conformance to the declared types; rejected inputs must not reach a resolver.",
         note="Trusts R-COERCE; lexical leniency of the built-in scalars (bool(x), str(x), int('3')) is classed lenient and never flagged.",
         design="4/C07"),
+    "C08": dict(
+        technique="schedule controller (parking executor substituted for ThreadPoolRuntime._inner and for the asyncio loop's default executor, gate futures for coroutine resolvers) enumerates / samples completion orders from one thread; each outcome is compared with the reference executor; monitored Future subclass in runtime/threadpool.py; stress mode with a real 8-thread pool and sys.monitoring LINE yield injection",
+        text="For each request six configurations are run; in the deferred ones every completion order of the in-flight resolver tasks is explored depth-first up to a bound (then sampled). Data and error paths must equal the reference in every schedule, unexpected resolver exceptions must surface as the overall failure, and a result that is still pending when no task is left is a violation (liveness restated as progress at quiescence).",
+        note="Schedules are sequences of single task completions; intra-statement interleavings that CPython 3.12 cannot produce are out of reach. Distinct schedules per configuration are counted in the evidence.",
+        design="4/C08, 3.4"),
 }
 
 PENDING_REASON = "check not built yet in this session (planned: see DESIGN.md section 4); no claim is made"
